@@ -82,6 +82,11 @@ class ScriptedPeer(object):
             return
 
 
+class _Unboxable(object):
+    def __getattr__(self, name):
+        raise RuntimeError("this object cannot be looked at (%s)" % name)
+
+
 def run_shared(cfg, seed, policy="random", script=(), p_switch=0.3, census=False, timeout=30):
     """cfg = (n_clients, per-client request modes tuple of tuples ('s'|'a'|'sr'|'ar'), with_bg)"""
     import rpyc
@@ -161,6 +166,19 @@ def run_shared(cfg, seed, policy="random", script=(), p_switch=0.3, census=False
         pending = []
         for ri, mode in enumerate(modes[ci]):
             token = ("ref%d_%d" if "r" in mode else "t%d_%d") % (ci, ri)
+            if mode == "f":
+                # a request that fails while it is being put together (an argument whose attribute look-ups raise): nothing is
+                # sent, the caller gets the error - and the connection's bookkeeping must be none the worse for it
+                try:
+                    conn.async_request(consts.HANDLE_PING, _Unboxable())
+                    obs["outcomes"].append((token, ("exc", "no-error-for-an-unboxable-argument"), sched.now, None, ci))
+                except vsched.SchedAbort:
+                    raise
+                except RuntimeError:
+                    obs["failed_requests"] = obs.get("failed_requests", 0) + 1
+                except BaseException as e:
+                    obs["outcomes"].append((token, ("exc", type(e).__name__), sched.now, None, ci))
+                continue
             try:
                 ar = conn.async_request(consts.HANDLE_PING, token)
                 ar.set_expiry(timeout)
